@@ -1,0 +1,39 @@
+// Copyright 2021-present The Atlas Authors. All rights reserved.
+// This source code is licensed under the Apache 2.0 license found
+// in the LICENSE file in the root directory of this source tree.
+
+//go:build verif
+
+package cmdapi
+
+import (
+	"fmt"
+	"os"
+	"sync"
+	"syscall"
+)
+
+var (
+	verifMu     sync.Mutex
+	verifCounts = map[string]int{}
+)
+
+// verifPoint is a named, occurrence-indexed observation and crash point used by the runtime
+// monitors under /verif. It appends "<name> <n>" to $VERIF_TRACE and kills the process (SIGKILL,
+// no deferred code, no flushes) when $VERIF_CRASH_AT equals "<name>:<n>".
+func verifPoint(name string) {
+	verifMu.Lock()
+	verifCounts[name]++
+	n := verifCounts[name]
+	verifMu.Unlock()
+	if p := os.Getenv("VERIF_TRACE"); p != "" {
+		if f, err := os.OpenFile(p, os.O_APPEND|os.O_CREATE|os.O_WRONLY, 0o644); err == nil {
+			f.WriteString(fmt.Sprintf("%s %d\n", name, n))
+			f.Close()
+		}
+	}
+	if os.Getenv("VERIF_CRASH_AT") == fmt.Sprintf("%s:%d", name, n) {
+		syscall.Kill(os.Getpid(), syscall.SIGKILL)
+		select {}
+	}
+}
